@@ -10,6 +10,7 @@ import (
 	"fmt"
 	"os"
 	"reflect"
+	"strings"
 	"sync"
 	"testing"
 	"time"
@@ -76,6 +77,43 @@ func num(label string) uint64 {
 
 // Run executes a harness natively inside a test.
 func Run(t *testing.T, f func()) {
+	// VERIF_SWEEP="kind:43,ext:2": run the harness natively for every combination of these
+	// vf.Choose inputs (validation of the encoder against the real build, not a replay)
+	if sw := os.Getenv("VERIF_SWEEP"); sw != "" {
+		sweep(t, f, strings.Split(sw, ","), map[string]uint64{})
+		fmt.Println("VF-HARNESS-END")
+		return
+	}
+	runOnce(t, f)
+}
+
+func sweep(t *testing.T, f func(), dims []string, fixed map[string]uint64) {
+	if len(dims) == 0 {
+		load()
+		mu.Lock()
+		for k, v := range fixed {
+			inputs[k] = json.RawMessage(fmt.Sprint(v))
+		}
+		mu.Unlock()
+		ok := t.Run(fmt.Sprint(fixed), func(t *testing.T) { runOnce(t, f) })
+		if !ok {
+			fmt.Println("VF-SWEEP-FAIL", fixed)
+		}
+		return
+	}
+	var name string
+	var n uint64
+	kv := strings.SplitN(dims[0], ":", 2)
+	name = kv[0]
+	fmt.Sscan(kv[1], &n)
+	for i := uint64(0); i < n; i++ {
+		fixed[name] = i
+		sweep(t, f, dims[1:], fixed)
+	}
+	delete(fixed, name)
+}
+
+func runOnce(t *testing.T, f func()) {
 	defer func() {
 		if p := recover(); p != nil {
 			switch p := p.(type) {
